@@ -280,6 +280,25 @@ pub fn eval_whitelist(order: &[usize], with_encoding: bool, st: &mut Stats) -> R
                 (Err(e), Some(w)) => return Err(format!("{} digits ({} codewords) refused ({:?}) although {} is listed", 2 * k, k, e, SYMBOLS[w].name())),
             }
             st.count("picks_checked");
+            // ... and as a macro 05 message: one macro codeword + (k - 1) digit pairs (macro
+            // compaction is on by default); 9 envelope bytes must not count against the capacity
+            if k >= 1 {
+                let mut m = gen::MACRO05.to_vec();
+                m.extend(std::iter::repeat(b'1').take(2 * (k - 1)));
+                m.extend_from_slice(gen::MACRO_TRAIL);
+                let r = guarded(|| DataMatrixBuilder::new().with_symbol_list(l.clone()).encode(&m)).map_err(|p| format!("encode: {}", p))?;
+                match (r, want) {
+                    (Ok(dm), Some(w)) => {
+                        if bridge::ref_index(dm.size) != w {
+                            return Err(format!("macro 05 message with {} digits ({} codewords): {:?} picked, first large enough in iteration order is {}", 2 * (k - 1), k, dm.size, SYMBOLS[w].name()));
+                        }
+                    }
+                    (Err(_), None) => {}
+                    (Ok(dm), None) => return Err(format!("macro 05 message of {} codewords fits {:?}?", k, dm.size)),
+                    (Err(e), Some(w)) => return Err(format!("macro 05 message with {} digits ({} codewords) refused ({:?}) although {} is listed", 2 * (k - 1), k, e, SYMBOLS[w].name())),
+                }
+                st.count("picks_checked");
+            }
         }
     }
     st.count("nontrivial");
